@@ -3,6 +3,7 @@
 // then not pulled in by the linker (all its symbols are already defined here).
 #include "gr_face.cpp"
 #include "hcommon.h"
+#include <map>
 #include <sys/mman.h>
 #include <unistd.h>
 
@@ -63,6 +64,14 @@ int main(int argc, char **argv) {
             }
             gr_featureval_destroy(fv);
             printf("%s L%s\n", id.c_str(), out.c_str());
+        } else if (op == "feat" && f.size() >= 4) {              // API level: the feature selected by a tag; <font index | path of a crafted font>
+            static std::map<std::string, gr_face *> crafted;
+            gr_face *fc = 0;
+            if (f[2][0] == '/') { if (!crafted.count(f[2])) crafted[f[2]] = gr_make_file_face(f[2].c_str(), 0); fc = crafted[f[2]]; }
+            else { int fi = atoi(f[2].c_str()) % 5; if (!faces[fi]) faces[fi] = gr_make_file_face((repo + "/" + FONTS[fi]).c_str(), 0); fc = faces[fi]; }
+            if (!fc) { printf("%s NOFACE\n", id.c_str()); continue; }
+            const gr_feature_ref *fr = gr_face_find_fref(fc, (gr_uint32)strtoul(f[3].c_str(), 0, 16));
+            if (fr) printf("%s F %08x\n", id.c_str(), (unsigned)gr_fref_id(fr)); else printf("%s F none\n", id.c_str());
         } else printf("%s BAD\n", id.c_str());
         fflush(stdout);
         case_end();
